@@ -1,6 +1,8 @@
 package props
 
 import (
+	"bytes"
+	"compress/flate"
 	"math/rand"
 	"strings"
 
@@ -204,6 +206,37 @@ func c05Gen(rng *rand.Rand, tier string) []core.Spec {
 		nstreams, maxLen, per = 400, 3000, 4
 	}
 	var out []core.Spec
+	// a compressed message whose deflate stream ends with a BFINAL block (RFC 7692 7.2.3.4), sent as
+	// one frame or with the remaining 0x00 octet in a final continuation frame: every cut, every fault
+	for _, server := range []bool{false, true} {
+		var z bytes.Buffer
+		fw, _ := flate.NewWriter(&z, 6)
+		fw.Write([]byte("hello hello hello, final block"))
+		fw.Close()
+		wire := append(append([]byte{}, z.Bytes()...), 0x00)
+		for _, split := range []bool{false, true} {
+			k := genKey(rng)
+			var frames []Frame
+			if split {
+				frames = []Frame{{Fin: false, Rsv: 4, Op: 1, Masked: server, Key: k, Payload: wire[:len(wire)-1]}, {Fin: true, Op: 0, Masked: server, Key: k, Payload: wire[len(wire)-1:]}}
+			} else {
+				frames = []Frame{{Fin: true, Rsv: 4, Op: 1, Masked: server, Key: k, Payload: wire}}
+			}
+			stream, _ := encodeAll(frames)
+			for cut := 0; cut <= len(stream); cut++ {
+				for fault := 0; fault < 3; fault++ {
+					for _, glued := range []bool{false, true} {
+						sp := &ReaderSpec{Prop: 5, Server: server, Negotiated: true, RBuf: 4096, Fault: fault, Glued: glued, Cmp: false, Drains: true, Note: "bfinal-deflate-stream",
+							Ops: drainOps(3)}
+						if cut > 0 {
+							sp.Chunks = []B{B(stream[:cut])}
+						}
+						out = append(out, sp)
+					}
+				}
+			}
+		}
+	}
 	for i := 0; i < nstreams; i++ {
 		server := rng.Intn(2) == 0
 		negotiated := rng.Intn(4) == 0
